@@ -530,4 +530,31 @@ MUTATIONS += [
     dict(id="q-r14w-from-numpy-copy", quiet=True, file="cirkit/backend/torch/initializers.py", old="    t = torch.from_numpy(np.ascontiguousarray(array))", new="    t = torch.from_numpy(array.copy())", expect={}),
     dict(id="r14w-default-dtype-detour", file="cirkit/backend/torch/initializers.py", old="    # The values are converted to the data type of the given tensor\n    return tensor.copy_(t)", new="    if t.is_floating_point():\n        t = t.to(torch.get_default_dtype())\n    return tensor.copy_(t)", expect={"C17": ["R14w:cirkit.backend.torch.initializers.copy_from_ndarray_:dtype"]}),
     dict(id="r1e-torch-scaled-sigmoid-pickier", file=TNODES, old='        assert vmin < vmax, "Must provide vmin < vmax."', new='        assert 0 <= vmin < vmax, "Must provide 0 <= vmin < vmax."', expect={"C14": ["R1e:cirkit.backend.torch.parameters.nodes.TorchScaledSigmoidParameter"]}),
+    # ---- wave-8 seeds as kept
+    dict(id="w8-c01g", patch="seeded/C01g/patch.diff", expect={'C01': ['R3g:'], 'C02': ['R3g:'], 'C14': ['R3g:']}, allow_others=True),
+    dict(id="w8-c01h", patch="seeded/C01h/patch.diff", expect={'C01': ['R14t:'], 'C02': ['R14t:']}, allow_others=True),
+    dict(id="w8-c02g", patch="seeded/C02g/patch.diff", expect={'C02': ['R3g:'], 'C01': ['R3g:'], 'C14': ['R3g:']}, allow_others=True),
+    dict(id="w8-c05g", patch="seeded/C05g/patch.diff", expect={'C05': ['R7i:']}, allow_others=True),
+    dict(id="w8-c05h", patch="seeded/C05h/patch.diff", expect={'C05': ['R5d:'], 'C14': ['R5d:']}, allow_others=True),
+    dict(id="w8-c09e", patch="seeded/C09e/patch.diff", expect={'C09': ['R14g:'], 'C04': ['R14g:']}, allow_others=True),
+    dict(id="w8-c09f", patch="seeded/C09f/patch.diff", expect={'C09': ['R8m:'], 'C11': ['R8m:']}, allow_others=True),
+    dict(id="w8-c10g", patch="seeded/C10g/patch.diff", expect={'C10': ['R10n:'], 'C19': ['R10n:']}, allow_others=True),
+    dict(id="w8-c10h", patch="seeded/C10h/patch.diff", expect={'C10': ['R2e:'], 'C03': ['R2e:']}, allow_others=True),
+    dict(id="w8-c11g", patch="seeded/C11g/patch.diff", expect={'C11': ['R11m:'], 'C12': ['R11m:'], 'C03': ['R11m:']}, allow_others=True),
+    dict(id="w8-c11h", patch="seeded/C11h/patch.diff", expect={'C11': ['R8:']}, allow_others=True),
+    dict(id="w8-c14g", patch="seeded/C14g/patch.diff", expect={'C14': ['R3g:'], 'C01': ['R3g:'], 'C02': ['R3g:']}, allow_others=True),
+    dict(id="w8-c14h", patch="seeded/C14h/patch.diff", expect={'C14': ['R12b:']}, allow_others=True),
+    dict(id="w8-c16g", patch="seeded/C16g/patch.diff", expect={'C16': ['R7n:'], 'C08': ['R7n:']}, allow_others=True),
+    dict(id="w8-c16h", patch="seeded/C16h/patch.diff", expect={'C16': ['R14e:']}, allow_others=True),
+    dict(id="w8-c17e", patch="seeded/C17e/patch.diff", expect={'C17': ['R3']}, allow_others=True),
+    dict(id="w8-c17f", patch="seeded/C17f/patch.diff", expect={'C17': ['R5h:'], 'C14': ['R5h:']}, allow_others=True),
+    dict(id="w8-c18e", patch="seeded/C18e/patch.diff", expect={'C18': ['R14s:'], 'C01': ['R14s:'], 'C04': ['R14s:']}, allow_others=True),
+    dict(id="w8-c18f", patch="seeded/C18f/patch.diff", expect={'C18': ['R6g:']}, allow_others=True),
+    dict(id="w8-c19e", patch="seeded/C19e/patch.diff", expect={'C19': ['R6p:'], 'C10': ['R6p:']}, allow_others=True),
+    dict(id="w8-c19f", patch="seeded/C19f/patch.diff", expect={'C19': ['R10m:']}, allow_others=True),
+    dict(id="w8-c19g", patch="seeded/C19g/patch.diff", expect={'C19': ['R10a:']}, allow_others=True),
+    dict(id="w8-c20g", patch="seeded/C20g/patch.diff", expect={'C20': ['R13h:']}, allow_others=True),
+    dict(id="w8-c20h", patch="seeded/C20h/patch.diff", expect={'C20': ['R14c:']}, allow_others=True),
+    dict(id="q-r6g-generator-with-finally", quiet=True, patch="seeded/C18f/patch.diff", edits=[("cirkit/pipeline.py", "            token = _PIPELINE_CONTEXT.set(self)\n            yield\n            _PIPELINE_CONTEXT.reset(token)", "            token = _PIPELINE_CONTEXT.set(self)\n            try:\n                yield\n            finally:\n                _PIPELINE_CONTEXT.reset(token)")], expect={}, allow_analysis_error=True),
+    dict(id="q-r13h-lookup-along-ordering", quiet=True, patch="seeded/C20g/patch.diff", edits=[("cirkit/templates/pgms.py", "    input_sls = [sl for _, sl in sorted(zip(ordering, input_sls), key=lambda t: t[0])]", "    input_sls = [input_sls[v] for v in ordering]")], expect={}, allow_analysis_error=True),
 ]
